@@ -933,7 +933,7 @@ func c19PairOK(d, b sxVal, allowed map[string]bool) (bool, string) {
 
 func c19R3(c *Ctx, a *c19Anchors) {
 	const R3 = "C19.R3.descriptor-matches-bytes"
-	c.Expect(R3, 17)
+	c.Expect(R3, 17) // the optional-interface obligations exist only while Exists is consulted
 	agg := newC19Agg(c, R3)
 	for _, M := range []*c19Mode{a.v10, a.v11, a.rc2, a.artifact} {
 		P := M.entry
@@ -987,6 +987,25 @@ func c19R3(c *Ctx, a *c19Anchors) {
 					} else {
 						agg.fail(key, P, in, p, "the manifest is pushed although json.Marshal may have failed")
 					}
+				}
+			}
+			// a comma-ok type assertion's value is used as a receiver only where ok held
+			// (target kinds that do not implement the optional interface must not crash)
+			for _, r := range p.Calls {
+				ex, isOp := r.Recv.(sxOp)
+				if !isOp || ex.op != "extract#0" || len(ex.args) != 1 {
+					continue
+				}
+				as, isAssert := ex.args[0].(sxOp)
+				if !isAssert || !strings.HasPrefix(as.op, "assert:") || !strings.HasSuffix(as.op, ",ok") {
+					continue
+				}
+				key := pn + "|optional-interface-used-only-when-asserted"
+				okT := sxOp{"extract#1", []sxVal{as}}
+				if v, known := p.Fact(r.NFacts, okT.key()); known && v {
+					agg.ok(key, P, r.Call.(ssa.Instruction), "a method of the asserted optional interface ("+r.Name+") is called only where the assertion succeeded")
+				} else {
+					agg.fail(key, P, r.Call.(ssa.Instruction), p, r.Name+" is invoked on the result of a failed (or untested) type assertion: packing into a target that lacks the optional interface would panic")
 				}
 			}
 			if p.Ret == nil || !sxSame(p.Ret[len(p.Ret)-1], sxNil) {
@@ -1484,6 +1503,8 @@ var c19Mutants = []Mutant{
 	{Name: "existence-check-error-ignored", File: "pack.go",
 		Old: "\t\texists, err := ros.Exists(ctx, desc)\n\t\tif err != nil {\n\t\t\treturn fmt.Errorf(\"failed to check existence: %s: %s: %w\", desc.Digest.String(), desc.MediaType, err)\n\t\t}\n",
 		New: "\t\texists, _ := ros.Exists(ctx, desc)\n", Expect: "C19.R3"},
+	{Name: "exists-asked-of-targets-that-cannot-answer", File: "pack.go",
+		Old: "\tif ros, ok := pusher.(content.ReadOnlyStorage); ok {", New: "\tif ros, ok := pusher.(content.ReadOnlyStorage); !ok {", Expect: "C19.R3"},
 	{Name: "manifest-size-overwritten", File: "pack.go",
 		Old: "\tmanifestDesc.ArtifactType = artifactType\n", New: "\tmanifestDesc.ArtifactType = artifactType\n\tmanifestDesc.Size = int64(len(mediaType))\n", Expect: "C19.R3"},
 	{Name: "empty-layer-never-pushed", File: "pack.go",
